@@ -18,6 +18,7 @@ Inductive obs := OOk | OErr (stage : N) | OPanic | OTimeout
 Inductive input :=
 | I1 (i : e1_in)                       (* jose.Deserialize + JWEDecrypt.Decrypt *)
 | I2 (b : list N)                      (* packager.UnpackMessage: getEncodingType *)
+| I2t (frame : list N)                 (* a frame written on the websocket inbound transport *)
 | I3 (i : e3_in)                       (* legacy Unpack *)
 | I4 (i : e4_in)                       (* jose.ParseJWS with the jwt verifier *)
 | I5sig (b : list N)                   (* bbs ParseSignature *)
@@ -54,6 +55,7 @@ Definition run (v : variant) (i : input) : gout :=
   match i with
   | I1 x => E1 v x
   | I2 b => E2 v b
+  | I2t f => E2_transport v f
   | I3 x => E3 v x
   | I4 x => E4 v x
   | I5sig b => parse_signature true b
